@@ -239,10 +239,11 @@ type sxState struct {
 	epoch int
 	stack []*types.Func
 	why   string
+	tsub  map[*types.TypeParam]types.Type // instantiation of type parameters of inlined generic helpers
 }
 
 func (s *sxState) clone() *sxState {
-	n := &sxState{env: make(map[types.Object]Term, len(s.env)), epoch: s.epoch, why: s.why}
+	n := &sxState{env: make(map[types.Object]Term, len(s.env)), epoch: s.epoch, why: s.why, tsub: s.tsub}
 	for k, v := range s.env {
 		n.env[k] = v
 	}
@@ -949,7 +950,7 @@ func (x *SX) typeSwitch(v *ast.TypeSwitchStmt, st *sxState) []outcome {
 				}
 				var T types.Type
 				if !c.isNil(cc.List[j]) {
-					T = c.typeOf(cc.List[j])
+					T = st.subst(c.typeOf(cc.List[j]))
 				}
 				for _, br := range x.branchTerm(TTypeIs{operand, T}, st, cc.List[j]) {
 					if br.truth {
@@ -1052,7 +1053,7 @@ func (x *SX) forStmt(v *ast.ForStmt, st *sxState) []outcome {
 			x.havoc(v.Post, head, id, inside)
 		}
 		rec.HeadEnv = copyEnv(head.env)
-		iter := &sxState{env: copyEnv(head.env), epoch: head.epoch, stack: head.stack}
+		iter := &sxState{env: copyEnv(head.env), epoch: head.epoch, stack: head.stack, tsub: head.tsub}
 		if v.Cond != nil {
 			rec.CondT = simplify(x.eval(v.Cond, iter))
 		}
@@ -1104,7 +1105,7 @@ func (x *SX) rangeStmt(v *ast.RangeStmt, st *sxState) []outcome {
 			rec.Value = x.c.obj(id)
 		}
 		rec.HeadEnv = copyEnv(head.env)
-		iter := &sxState{env: copyEnv(head.env), epoch: head.epoch, stack: head.stack}
+		iter := &sxState{env: copyEnv(head.env), epoch: head.epoch, stack: head.stack, tsub: head.tsub}
 		if rec.Key != nil {
 			iter.env[rec.Key] = TVar{rec.Key}
 		}
@@ -1307,7 +1308,7 @@ func (x *SX) evalFork(e ast.Expr, st *sxState) []evalOut {
 		if v.Type == nil {
 			return x.evalFork(v.X, st)
 		}
-		T := c.typeOf(v.Type)
+		T := st.subst(c.typeOf(v.Type))
 		return x.map1(v.X, st, func(t Term, st *sxState) Term { return TAssert{t, T} })
 	case *ast.CallExpr:
 		return x.call(v, st, 1)
@@ -1322,7 +1323,7 @@ func (x *SX) evalForkTuple(e ast.Expr, st *sxState, n int) []evalOut {
 	c := x.c
 	switch v := e.(type) {
 	case *ast.TypeAssertExpr:
-		T := c.typeOf(v.Type)
+		T := st.subst(c.typeOf(v.Type))
 		outs := x.evalFork(v.X, st)
 		for i := range outs {
 			if outs[i].kind == "" {
@@ -1675,12 +1676,47 @@ func countNodes(n ast.Node) int {
 	return k
 }
 
+// subst replaces a type parameter of an inlined generic helper by its instantiation.
+func (s *sxState) subst(t types.Type) types.Type {
+	if tp, ok := t.(*types.TypeParam); ok && s.tsub != nil {
+		if r, ok := s.tsub[tp]; ok {
+			return r
+		}
+	}
+	return t
+}
+
 // inline executes a callee body in the caller's state.
 func (x *SX) inline(ft *ast.FuncType, body *ast.BlockStmt, recvObj types.Object, recv Term, args []Term, call *ast.CallExpr, st *sxState, f *types.Func) []evalOut {
 	c := x.c
 	x.noteAddrTaken(body)
 	if recvObj != nil {
 		st.env[recvObj] = recv
+	}
+	if f != nil {
+		if sig, ok := f.Type().(*types.Signature); ok && sig.TypeParams().Len() > 0 {
+			var id *ast.Ident
+			switch fe := unparen(call.Fun).(type) {
+			case *ast.Ident:
+				id = fe
+			case *ast.IndexExpr:
+				id, _ = unparen(fe.X).(*ast.Ident)
+			case *ast.IndexListExpr:
+				id, _ = unparen(fe.X).(*ast.Ident)
+			}
+			if id != nil {
+				if inst, ok := c.Info.Instances[id]; ok && inst.TypeArgs != nil {
+					ns := map[*types.TypeParam]types.Type{}
+					for k, v := range st.tsub {
+						ns[k] = v
+					}
+					for i := 0; i < sig.TypeParams().Len() && i < inst.TypeArgs.Len(); i++ {
+						ns[sig.TypeParams().At(i)] = st.subst(inst.TypeArgs.At(i))
+					}
+					st.tsub = ns
+				}
+			}
+		}
 	}
 	i := 0
 	if ft.Params != nil {
